@@ -49,6 +49,8 @@ pub fn dispatch(id: &str, args: &Args) -> Option<Report> {
         "GNET" => {
             let o = gossipnet::run_fetch(args.seed, &|_| true);
             println!("fetch: cases {} lies {} fetched {} viol {:#?} machinery {:?}", o.cases, o.lies_told, o.blocks_fetched, o.viol, o.machinery);
+            let r = gossipnet::run_rates(args.seed);
+            println!("rates: served {} viol {:#?} machinery {:?}", r.requests_served, r.viol, r.machinery);
             let d = gossipnet::run_dial(args.seed);
             println!("dial: cases {} dials {} viol {:#?} machinery {:?}", d.cases, d.dials_observed, d.viol, d.machinery);
             std::process::exit(0)
